@@ -5,6 +5,7 @@ import (
 	"math/rand"
 	"os"
 	"sync"
+	"time"
 
 	"github.com/akrennmair/updog/zverif/internal/vx"
 )
@@ -36,8 +37,14 @@ func recordConcWrite(args []string) error {
 		for _, kind := range []string{"mem", "big"} {
 			rng := r.rng
 			// values: ranks 1..8 for the shared columns, the tag column uses n distinct values
-			vals := vx.PickSorted(rng, nil, n+10, func(i int) string { return "t" + padInt(i) })
-			d := vx.NewDict([]string{"a", "b", "tag"}, vals)
+			vals := vx.PickSorted(rng, nil, n+20, func(i int) string { return "t" + padInt(i) })
+			// columns 4.. : only the very wide rows of the uneven tail carry them
+			const wide = 3000
+			cols := []string{"a", "b", "tag"}
+			for k := 0; k < wide; k++ {
+				cols = append(cols, "w"+padInt(k))
+			}
+			d := vx.NewDict(cols, vals)
 			r.reset(d)
 			wr, ok := r.newWriter(1, kind)
 			if !ok {
@@ -72,6 +79,40 @@ func recordConcWrite(args []string) error {
 				}(g)
 			}
 			wg.Wait()
+			// uneven tail: a very wide row enters AddRow first, a narrow one a moment later and overtakes it wherever
+			// the writer works outside its lock; the last rows decide what the row counter ends up as
+			tail := make([]item, 0, 6)
+			var tmu sync.Mutex
+			for round := 0; round < 3; round++ {
+				wideRow := vx.Row{{1, 1 + rng.Intn(4)}, {3, n + 2*round + 1}}
+				for k := 0; k < wide; k++ {
+					wideRow = append(wideRow, [2]int{4 + k, 1})
+				}
+				narrow := vx.Row{{3, n + 2*round + 2}}
+				wm, nm := d.RowMap(wideRow), d.RowMap(narrow)
+				started := make(chan struct{})
+				var tw sync.WaitGroup
+				tw.Add(2)
+				add := func(m map[string]string, row vx.Row) {
+					defer tw.Done()
+					id, err := wr.AddRow(m)
+					if err != nil {
+						id = 1 << 30
+					}
+					tmu.Lock()
+					tail = append(tail, item{int(id), row})
+					tmu.Unlock()
+				}
+				go func() { close(started); add(wm, wideRow) }()
+				go func() {
+					<-started
+					for spin := time.Now(); time.Since(spin) < time.Duration(20*(round+1))*time.Microsecond; {
+					}
+					add(nm, narrow)
+				}()
+				tw.Wait()
+			}
+			res = append(res, tail)
 			items := []any{}
 			for _, rs := range res {
 				for _, it := range rs {
@@ -103,6 +144,11 @@ func recordConcWrite(args []string) error {
 					}
 				}
 			}
+			for t := n + 1; t <= n+6; t++ {
+				r.exec(1, idx, vx.Query{E: &vx.Expr{Op: "eq", Col: 3, Val: t}})
+			}
+			r.exec(1, idx, vx.Query{E: &vx.Expr{Op: "not", E: &vx.Expr{Op: "eq", Col: 4, Val: 1}}})
+			r.exec(1, idx, vx.Query{E: &vx.Expr{Op: "not", E: &vx.Expr{Op: "eq", Col: 3, Val: n + 6}}})
 			r.close(1, idx)
 		}
 	}
